@@ -352,6 +352,41 @@ theorem dictCalls_le (g : DDag) : ∀ (f v : Nat) (k : Int), (dictCalls g f v k)
                   | raised s => rw [hb] at ihb; simp only [DRes.steps] at ihb ⊢; omega
                   | done s2 => rw [hb] at ihb; simp only [DRes.steps] at ihb ⊢; omega
 
+theorem unary_len : ∀ (r : Bits) (n : Nat) (rest : Bits), unary r = some (n, rest) → n + rest.length + 1 = r.length := by
+  intro r
+  induction r with
+  | nil => intro n rest h; simp [unary] at h
+  | cons b t ih =>
+    intro n rest h
+    cases b with
+    | false => simp [unary] at h; obtain ⟨h1, h2⟩ := h; subst h1; subst h2; simp
+    | true =>
+      simp only [unary, Option.map_eq_some_iff] at h
+      obtain ⟨⟨n', rest'⟩, h1, h2⟩ := h
+      have := ih n' rest' h1
+      simp only [Prod.mk.injEq] at h2
+      obtain ⟨h3, h4⟩ := h2
+      subst h3; subst h4
+      simp only [List.length_cons]; omega
+
+/-- iterations of the `deserialize_unary` loop never exceed the bits of the cell -/
+theorem readLabel_iters (bits : Bits) (m : Int) : (readLabel bits m).2 ≤ bits.length := by
+  unfold readLabel
+  match bits with
+  | [] => simp
+  | false :: r =>
+    simp only []
+    cases h : unary r with
+    | none => simp
+    | some p =>
+      obtain ⟨n, rest⟩ := p
+      have := unary_len r n rest h
+      simp only [List.length_cons]; omega
+  | [true] => simp
+  | true :: false :: r => simp only []; split <;> simp
+  | [true, true] => simp
+  | true :: true :: _ :: r => simp only []; split <;> simp
+
 /-! ## TL parser: the loops never exhaust their own fuel -/
 open TonVerif.Model.Cost.Tl
 
